@@ -59,6 +59,7 @@ _SAN_RE = re.compile(r"(ERROR: AddressSanitizer: ([\w-]+))|(runtime error: ([^\n
                      r"(Assertion `[^']*' failed)|(Fatal Python error: ([^\n]+))")
 _FRAME_RE = re.compile(r"#\d+ 0x[0-9a-f]+ in (\w+) [^\n]*ctraits\.c:(\d+)")
 _UB_LOC_RE = re.compile(r"ctraits\.c:(\d+):\d+: runtime error: ([^\n]+)")
+_UB_ANY_RE = re.compile(r"[\w./-]+:(\d+):\d+: runtime error: ([^\n]+)")
 
 
 def crash_key(stderr_text, rc):
@@ -69,10 +70,11 @@ def crash_key(stderr_text, rc):
     if m:
         kind = "asan:" + m.group(1)
     if kind is None:
-        m = _UB_LOC_RE.search(stderr_text)
+        m = _UB_LOC_RE.search(stderr_text) or _UB_ANY_RE.search(stderr_text)
         if m:
             what = re.sub(r"0x[0-9a-f]+", "PTR", m.group(2))
-            what = re.sub(r"-?\d+", "N", what)[:60].strip().replace(" ", "_")
+            what = re.sub(r"-?\d+", "N", what)
+            what = re.split(r" of type | for type |'", what)[0][:60].strip().replace(" ", "_")
             kind = "ubsan:" + what
     if kind is None:
         m = re.search(r"Assertion `([^']*)' failed", stderr_text)
@@ -97,6 +99,20 @@ def crash_key(stderr_text, rc):
         m = re.search(r'File "[^"]*", line \d+ in (\w+)', stderr_text)
         func = ("py:" + m.group(1)) if m else "?"
     return "crash/%s/%s" % (kind, func)
+
+
+def _child_limits():
+    """Generous C stack for children (ASan frames are large; a legitimate Python
+    RecursionError must not be pre-empted by a C stack overflow)."""
+    import resource
+    soft, hard = resource.getrlimit(resource.RLIMIT_STACK)
+    want = 512 * 1024 * 1024
+    if hard != resource.RLIM_INFINITY:
+        want = min(want, hard)
+    try:
+        resource.setrlimit(resource.RLIMIT_STACK, (want, hard))
+    except (ValueError, OSError):
+        pass
 
 
 # ---------------------------------------------------------------------------
@@ -189,7 +205,7 @@ def main(argv=None):
                             extra=s.phase.get("env"))
             s.errf = open(s.err, "ab")
             s.proc = subprocess.Popen(cmd, env=env, cwd=ROOT, stdout=s.errf if not replay else None,
-                                      stderr=s.errf)
+                                      stderr=s.errf, preexec_fn=_child_limits)
             if s.started is None:
                 s.started = time.time()
 
@@ -225,14 +241,18 @@ def main(argv=None):
                 err_text = open(s.err, errors="replace").read()
                 # only the tail belonging to this crash
                 tail = err_text[-12000:]
-                if rc == 3 or last is None or last["ord"] <= s.resume_after:
+                py_tb = (rc == 1 and "Traceback (most recent call last)" in tail
+                         and "Sanitizer" not in tail and "runtime error:" not in tail)
+                if rc == 3 or py_tb or last is None or last["ord"] <= s.resume_after:
                     # died before starting a new case: infrastructure problem
                     s.crashes.append({"key": "infra/" + crash_key(tail, rc), "case": None,
                                       "desc": None, "stderr": tail[-3000:], "ord": None})
                     s.gave_up = True
                     continue
-                s.crashes.append({"key": crash_key(tail, rc), "case": last["id"],
-                                  "desc": last.get("desc"), "stderr": tail[-6000:],
+                s.crashes.append({"key": crash_key(err_text, rc), "case": last["id"],
+                                  "desc": last.get("desc"),
+                                  "stderr": (err_text if len(err_text) < 8000 else
+                                             err_text[:4000] + "\n[...]\n" + err_text[-3500:]),
                                   "ord": last["ord"]})
                 s.resume_after = last["ord"]
                 s.restarts += 1
